@@ -196,6 +196,9 @@ private:
 
                 if( isdigit( ch ))
                 {
+                    io_error_if( k + 1 >= sizeof( buf )
+                               , "pnm: sample value has too many digits" );
+
                     buf[ k++ ] = static_cast< char >( ch );
                 }
                 else if( k )
@@ -205,7 +208,7 @@ private:
                 }
                 else if( ch == EOF || !isspace( ch ))
                 {
-                    return;
+                    io_error( "pnm: text data ends or is malformed before the declared number of samples" );
                 }
             }
 
